@@ -1217,19 +1217,20 @@ def suite_traces(name="suite"):
 # implementation-shaped layer (GfaImpl.tla): refinement of Gfa.tla, cascade one step at a time
 
 IMPL_LINES = ["S|a|4|*", "S|b|6|*", "E|e1|a+|b+|2|4$|0|2|*", "E|e2|a+|b+|1|4$|0|3|*",
-              "E|*|a+|b-|0|1|3|6$|*", "U|u|a e1", "U|v|u b", "U|u|b", "U|v|e1"]
+              "E|*|a+|b-|0|1|3|6$|*", "U|u|a e1", "U|v|u b", "U|u|b", "U|v|e1", "E|e3|z+|u+|0|1|0|1|*"]
 
 
-def mc_impl(depth, snapshot=True, name="impl", repoint=True):
+def mc_impl(depth, snapshot=True, name="impl", repoint=True, rollback=True):
     """returns (ok, (generated, distinct), violated invariant or None)"""
     wd = workdir(name)
     cf = os.path.join(wd, "cat.json")
     with open(cf, "w") as f:
         json.dump({"pool": [abstract_input(text_of(l)) for l in IMPL_LINES], "maxobjs": 9, "depth": depth}, f)
     cfg = ("SPECIFICATION Spec\nCONSTANTS\n  Catalogue <- MCCatalogue\n  MaxObjs <- MCMaxObjs\n  MaxOps <- MCMaxOps\n"
-           "  SnapshotCascade = %s\n  RepointMerged = %s\nINVARIANT Refines\nINVARIANT Closed\nINVARIANT Symmetric\n"
+           "  SnapshotCascade = %s\n  RepointMerged = %s\n  RollbackOnRefusal = %s\nINVARIANT Refines\nINVARIANT Closed\nINVARIANT Symmetric\n"
            "INVARIANT PlaceholdersExact\nCHECK_DEADLOCK FALSE\n" % ("TRUE" if snapshot else "FALSE",
-                                                                  "TRUE" if repoint else "FALSE"))
+                                                                  "TRUE" if repoint else "FALSE",
+                                                                  "TRUE" if rollback else "FALSE"))
     rc, out = run_tlc("MC_GfaImpl", cfg, wd, env={"CATALOG_FILE": cf}, workers=NCPU, heap="6g")
     st = stats(out)
     import re
